@@ -30,7 +30,7 @@ HALF4 = 0.5e-4 + 1e-9
 
 def cases(tier, seed):
     rng = np.random.default_rng([15, seed])
-    n = 200 if tier == "quick" else 5000
+    n = 200 if tier == "quick" else 60000
     out = []
     for j in range(n):
         cell = ["ortho", "tri", "rotated"][j % 3]
@@ -286,7 +286,7 @@ def run_case(case, ctx):
 
 def requirements(stats, tier):
     need = []
-    if stats.get("files_read_back") < (180 if tier == "quick" else 4000):
+    if stats.get("files_read_back") < (180 if tier == "quick" else 50000):
         need.append("too few files read back: %d" % stats.get("files_read_back"))
     if stats.nseen("class") < 15:
         need.append("only %d of 15 (cell x mode x placement) classes observed" % stats.nseen("class"))
